@@ -1166,6 +1166,12 @@ class PDFCIDFont(PDFFont):
             self.disps = {cid: (vx, vy) for (cid, (_, (vx, vy))) in widths2.items()}
             (vy, w) = resolve1(spec.get("DW2", [880, -1000]))
             self.default_disp = (None, vy)
+            # Glyphs without a W2 entry have the position vector (w0 / 2, vy),
+            # w0 being the horizontal width from W / DW.
+            self.hwidths: FontWidthDict = resolve_all(
+                get_widths(list_value(spec.get("W", [])))
+            )
+            self.default_hwidth = resolve1(spec.get("DW", 1000))
             widths: Dict[Union[str, int], float] = {
                 cid: w for (cid, (w, _)) in widths2.items()
             }
@@ -1234,6 +1240,11 @@ class PDFCIDFont(PDFFont):
 
     def char_disp(self, cid: int) -> Union[float, Tuple[Optional[float], float]]:
         """Returns an integer for horizontal fonts, a tuple for vertical fonts."""
+        if self.vertical and cid not in self.disps:
+            w0 = safe_float(self.hwidths.get(cid, self.default_hwidth))
+            if w0 is not None:
+                (_, vy) = cast(Tuple[Optional[float], float], self.default_disp)
+                return (w0 / 2, vy)
         return self.disps.get(cid, self.default_disp)
 
     def to_unichr(self, cid: int) -> str:
